@@ -105,19 +105,29 @@ Theorem obj_renaming_only : forall t : wtable,
 Proof. intros t H1 H2 H3. exact (proj1 (sub_obj_render_body_lemma t H1 H2 H3)). Qed.
 
 (* parse_render — THE round trip: for every suffix (ext, phi, cov/cor/coi, $TABLE) and every well-formed written
-   file (one or more tables, each with its title line; for $TABLE files label lines repeated every k records;
-   negative numbers, 22 wide last column, ...) reading the rendered text gives exactly the written tables:
-   numbers (title), methods, labels (with the OBJ renaming for ext/phi), row numbers and exact values. *)
-Theorem parse_render : forall (sfx : suffix) (ws : list wtable),
-    wfile_ok sfx ws = true ->
-    read_table_file sfx false (render_wfile ws) = ROk (map (table_of_wtable sfx) ws).
+   file (one or more tables, each with its title line; for $TABLE files label lines repeated every k records, or —
+   read with nolabel, as read_modelfit_results does for $TABLE ... NOLABEL — no label line at all; negative numbers,
+   22 wide last column, ...) reading the rendered text gives exactly the written tables: numbers (title), methods,
+   labels (with the OBJ renaming for ext/phi; column numbers when there is no label line), row numbers and exact
+   values.  No record is lost: the guard "every table carries its label line" of the first version of this theorem
+   (finding C20-NOHEADER-FIRST-ROW, fixed in 5f0fde5) is gone. *)
+Theorem parse_render : forall (sfx : suffix) (nolabel : bool) (ws : list wtable),
+    wfile_ok sfx nolabel ws = true ->
+    read_table_file sfx false nolabel (render_wfile ws) = ROk (map (table_of_wtable sfx nolabel) ws).
 Proof. exact parse_render_file_lemma. Qed.
 
 (* ... and the same file with CR LF line ends (NONMEM on Windows) reads identically *)
-Theorem parse_render_crlf : forall (sfx : suffix) (ws : list wtable),
-    wfile_ok sfx ws = true ->
-    read_table_file sfx false (crlf (render_wfile ws)) = ROk (map (table_of_wtable sfx) ws).
+Theorem parse_render_crlf : forall (sfx : suffix) (nolabel : bool) (ws : list wtable),
+    wfile_ok sfx nolabel ws = true ->
+    read_table_file sfx false nolabel (crlf (render_wfile ws)) = ROk (map (table_of_wtable sfx nolabel) ws).
 Proof. exact parse_render_crlf_lemma. Qed.
+
+(* $TABLE ... NOTITLE (label line, no title) and NOHEADER (neither title nor labels), read with notitle and
+   nolabel accordingly: one table, every record kept *)
+Theorem parse_render_notitle : forall (sfx : suffix) (nolabel : bool) (t : wtable),
+    wtable_notitle_ok nolabel t = true ->
+    read_table_file sfx true nolabel (render_wtable t) = ROk [mkTable None (frame_as_read SOther nolabel t)].
+Proof. exact parse_render_notitle_lemma. Qed.
 
 (* ---- the rows NONMEM designates -------------------------------------------------------------------------- *)
 
@@ -166,25 +176,33 @@ Theorem ext_final_ofv_row : forall (g : frame) (c : cell),
     \/ (forall ir, In ir (f_rows g) -> row_has_code g code_final ir = false).
 Proof. exact ext_final_ofv_lemma. Qed.
 
-(* results._get_iter_df: when the table prints iteration 0 and its final row repeats the objective value of the
-   last printed iteration, the iteration frame is exactly the printed (non-negative) iterations, unchanged ... *)
+(* results._get_iter_df: when the final row repeats the objective value of the last printed iteration, the iteration
+   frame is exactly the printed (non-negative) iterations, unchanged — whether or not iteration 0 is among them
+   (the guard g_has_iter0 of the first version, finding C20-NO-ITER0, is gone after 54e76a4) ... *)
 Theorem iter_df_printed : forall g : frame,
-    g_has_iter0 g = true -> g_final_obj_eq_last g = true ->
+    g_final_obj_eq_last g = true ->
     get_iter_df g = ROk (mkFrame (f_cols g) (filter (fun ir => cell_ge0 (iter_cell g (snd ir))) (f_rows g))).
 Proof. exact iter_df_printed_iterations. Qed.
 
+(* a table that prints no iteration at all (optimal design evaluation): the final row becomes iteration 0 *)
+Theorem iter_df_final_only : forall g : frame,
+    existsb cell_ge0 (col_cells g s_ITERATION) = false -> existsb (cell_is code_final) (col_cells g s_ITERATION) = true ->
+    get_iter_df g = ROk (mkFrame (f_cols g)
+                           (set_first_label 0 (fun r => set_iter g r 0) (number_from 0 (map snd (rows_with g code_final))))).
+Proof. intros g H1 H2. unfold get_iter_df. rewrite H1, H2. reflexivity. Qed.
+
 (* ... and the objective value reported for the run (results._parse_ofv, one estimation table) is the OBJ entry
-   of the row NONMEM designates.  Both guards are needed: see Refuted.v. *)
+   of the row NONMEM designates.  The remaining guard is needed: see Refuted.v. *)
 Theorem ofv_designated : forall (t : table) (g : frame) (c : cell) (entries : list (nat * cell * cell)),
     design_of t = None -> ext_data_frame (tb_frame t) = ROk g ->
-    g_has_iter0 g = true -> g_final_obj_eq_last g = true ->
+    g_final_obj_eq_last g = true ->
     parse_ofv [t] = ROk (c, entries) ->
     exists i r, In (i, r) (f_rows g) /\ row_has_code g code_final (i, r) = true /\
                 (forall ir, In ir (f_rows g) -> row_has_code g code_final ir = true -> ir = (i, r)) /\
                 c = obj_cell g r.
 Proof.
-  intros t g c entries Hd Hg H0 HF H.
-  apply get_ofv_row. exact (ofv_designated_lemma t g c entries Hd Hg H0 HF H).
+  intros t g c entries Hd Hg HF H.
+  apply get_ofv_row. exact (ofv_designated_lemma t g c entries Hd Hg HF H).
 Qed.
 
 (* ... and so are the run's parameter estimates (results._parse_parameter_estimates, one estimation table): the
@@ -195,7 +213,7 @@ Theorem pe_designated : forall (t : table) (g : frame) (pfix : list (text * bool
                                (fpe : list (text * cell)) (cols : list text) (rows : list (nat * cell * list cell))
                                (sd : option (list (text * cell))),
     design_of t = None -> ext_data_frame (tb_frame t) = ROk g ->
-    g_has_iter0 g = true -> g_final_obj_eq_last g = true ->
+    g_final_obj_eq_last g = true ->
     parse_parameter_estimates [t] pfix nm = ROk (fpe, cols, rows, sd) ->
     exists fx,
       get_fixed_parameters g pfix nm = ROk fx /\
